@@ -53,16 +53,20 @@ class Mismatch(Exception):
 
 
 def ser(s):
-    return [float(to_frac(q)) for q in s]
+    return [to_num(q) for q in s]          # float, or complex in the Gaussian-rational instance
+
+
+def _dtype_of(*seqs):
+    return complex if any(isinstance(v, complex) for s_ in seqs for v in s_) else float
 
 
 def pt_to_utpm(algopy, pt, lo=0, n=None):
     """pt.x[p][lo + j] = series  ->  UTPM data (D, P, n)"""
     D = pt["D"]; x = pt["x"]; P = len(x); N = len(x[0]) - lo if n is None else n
-    data = numpy.zeros((D, P, N))
-    for p in range(P):
-        for j in range(N):
-            data[:, p, j] = ser(x[p][lo + j])
+    vals = {(p, j): ser(x[p][lo + j]) for p in range(P) for j in range(N)}
+    data = numpy.zeros((D, P, N), dtype=_dtype_of(*vals.values()))
+    for (p, j), v in vals.items():
+        data[:, p, j] = v
     return algopy.UTPM(data)
 
 
@@ -86,7 +90,7 @@ def check_val(real, spec, what):
                     if not close(flat[dd, p, i], to_frac(s[dd])):
                         raise Mismatch("value", "%s cell %d dir %d order %d: got %r, spec %s" % (what, i, p, dd, flat[dd, p, i], to_frac(s[dd])))
     else:
-        a = numpy.asarray(real, dtype=float).reshape(-1)
+        a = numpy.asarray(real).reshape(-1)
         if a.shape[0] != ncell:
             raise Mismatch("shape", "%s: %d cells, spec %d" % (what, a.shape[0], ncell))
         for i in range(ncell):
@@ -262,16 +266,16 @@ class TracerReplayer:
 
     def dep_digest(self):
         x = self.dep.x
-        return numpy.array(x.data if type(x).__name__ == "UTPM" else x, dtype=float).copy()
+        return numpy.array(x.data if type(x).__name__ == "UTPM" else x).copy()
 
     def pb(self, e):
         al = self.al
         yb = e["ybar"]            # over cells, over p, series
         ncell = len(yb); P = len(yb[0]); D = len(yb[0][0])
-        data = numpy.zeros((D, P, ncell))
-        for i in range(ncell):
-            for p in range(P):
-                data[:, p, i] = ser(yb[i][p])
+        vals = {(i, p): ser(yb[i][p]) for i in range(ncell) for p in range(P)}
+        data = numpy.zeros((D, P, ncell), dtype=_dtype_of(*vals.values()))
+        for (i, p), v in vals.items():
+            data[:, p, i] = v
         depshape = self.dep.x.data.shape
         ybar = al.UTPM(data.reshape(depshape).copy())
         keep = ybar.data.copy()
@@ -441,7 +445,8 @@ def tracer_check(rep, configs, pid, nontrivial=None):
         maxrep = c.pop("max_replay", None)
         tmo = c.pop("timeout", 400)
         kw = dict(simulate=sim, depth=depth, seed=rep.seed) if sim else {}
-        res = run_tlc("MC_Tracer", cfg(**c), workers=16, timeout=tmo, **kw)
+        module = c.pop("module", "MC_Tracer")
+        res = run_tlc(module, cfg(**c), workers=16, timeout=tmo, **kw)
         if res.violated and res.violated != "EmitState":
             raise Machinery("spec property %s violated in %s:\n%s" % (res.violated, name, res.out[-3000:]))
         tlc_ok(res, "MC_Tracer " + name)
@@ -469,6 +474,11 @@ def tracer_check(rep, configs, pid, nontrivial=None):
                 calls = [e["c"] for e in h if e["c"] in ("fwd", "pb", "drv")]
                 if kind in ("A", "V") and calls and calls[0] == "pb":
                     continue            # a reverse sweep right after recording with plain arrays is not defined
+                first = next((e for e in h if e["c"] in ("fwd", "pb", "drv")), None)
+                if module == "MC_CTracer" and first is not None and first["c"] == "pb" and \
+                        any(isinstance(to_frac(q), tuple) for cell in first["ybar"] for srs in cell for q in srs):
+                    continue            # a complex seed for the real-valued recording run: the adjoint buffers take their element
+                                        # type from the forward values (NumPy casting), outside the properties
                 rec_this = (bi % 7 == 0) and len(TRACES) < 400
                 if rec_this:
                     probe_begin()
